@@ -23,7 +23,7 @@ pub enum Case {
 
 fn connect(c: &UdpClient) -> Result<i64, Violation> {
     c.send(&bep15_encode_request(&UReq::Connect { tid: 1 })).map_err(|e| Violation::new("inconclusive-send", e))?;
-    match c.recv(Duration::from_secs(5)).map(|(b, _)| bep15_decode_response(&b, true)) {
+    match c.recv(crate::e2e::reply_wait()).map(|(b, _)| bep15_decode_response(&b, true)) {
         Some(Ok(URsp::Connect { cid, .. })) => Ok(cid),
         other => Err(Violation::new("inconclusive-connect", format!("{:?}", other))),
     }
@@ -64,7 +64,7 @@ pub fn prop(case: &Case) -> CaseResult {
             for i in 0..fill {
                 c.send(&ann(1000 + i as u16, 1, 100 + i as i32)).map_err(|e| Violation::new("inconclusive-send", e))?;
                 // keep the socket buffers shallow: read the (small) reply
-                if c.recv(Duration::from_secs(5)).is_none() {
+                if c.recv(crate::e2e::reply_wait()).is_none() {
                     return Err(Violation::new("inconclusive-fill", format!("no reply while filling the swarm (announce {i})")));
                 }
             }
@@ -74,7 +74,7 @@ pub fn prop(case: &Case) -> CaseResult {
             c.send(&bep15_encode_request(&UReq::Connect { tid: 8 })).map_err(|e| Violation::new("inconclusive-send", e))?;
             let mut reply: Option<Vec<u8>> = None;
             loop {
-                match c.recv(Duration::from_secs(5)) {
+                match c.recv(crate::e2e::reply_wait()) {
                     Some((b, _)) if b.len() >= 8 && i32::from_be_bytes(b[4..8].try_into().unwrap()) == 8 => break,
                     Some((b, _)) => reply = Some(b),
                     None => return Err(Violation::new("inconclusive-fence-timeout", "no fence reply")),
@@ -113,7 +113,7 @@ pub fn prop(case: &Case) -> CaseResult {
                 c.send(&bep15_encode_request(&UReq::Connect { tid: 10 })).map_err(|e| Violation::new("inconclusive-send", e))?;
                 let mut reply: Option<Vec<u8>> = None;
                 loop {
-                    match c.recv(Duration::from_secs(5)) {
+                    match c.recv(crate::e2e::reply_wait()) {
                         Some((b, _)) if b.len() >= 8 && i32::from_be_bytes(b[4..8].try_into().unwrap()) == 10 => break,
                         Some((b, _)) => reply = Some(b),
                         None => return Err(Violation::new("inconclusive-fence-timeout", "no fence reply")),
@@ -161,7 +161,7 @@ pub fn prop(case: &Case) -> CaseResult {
             out.label("configuration-accepted");
             let ip: IpAddr = "127.0.0.1".parse().unwrap();
             let to: SocketAddr = (std::net::Ipv4Addr::LOCALHOST, t.port).into();
-            let timeout = Duration::from_secs(5);
+            let timeout = crate::e2e::reply_wait();
             let send = |req: &str| -> Result<HttpRead, Violation> {
                 let mut c = HttpClient::connect(ip, to).map_err(|e| Violation::new("inconclusive-connect", e))?;
                 c.send_segments(&[req.as_bytes()]).map_err(|e| Violation::new("inconclusive-send", e))?;
@@ -269,7 +269,7 @@ pub fn prop(case: &Case) -> CaseResult {
             let mut c = HttpClient::connect(ip, to).map_err(|e| Violation::new("inconclusive-connect", e))?;
             let hash = ascii_hash(77, 1);
             let hs = std::str::from_utf8(&hash).unwrap();
-            let timeout = Duration::from_secs(5);
+            let timeout = crate::e2e::reply_wait();
             let fill = n + 1;
             for i in 0..fill {
                 let req = format!("GET /announce?info_hash={hs}&peer_id=-TR2940-abcdefghijkl&port={}&uploaded=0&downloaded=0&left=1&numwant=1&compact=1 HTTP/1.1\r\nHost: x\r\n\r\n", 1000 + i);
